@@ -61,18 +61,18 @@ func verifEvalStructs(rt *verifRuntime, ss ...*StructLit) *Vertex {
 	return v
 }
 
-// observable state of a field: 0 absent, 1 value, 2+code error
-func verifFieldState(v *Vertex, f Feature) (state int, val Value) {
+// observable state of a field: 0 absent, 1 value, 2+code error; and its kind
+func verifFieldState(v *Vertex, f Feature) (state int, val Value, k Kind) {
 	a := v.Lookup(f)
 	if a == nil {
-		return 0, nil
+		return 0, nil, 0
 	}
 	a = a.DerefValue()
 	if b, isB := a.BaseValue.(*Bottom); isB {
-		return 2 + int(b.Code), nil
+		return 2 + int(b.Code), nil, 0
 	}
 	val, _ = a.BaseValue.(Value)
-	return 1, val
+	return 1, val, a.Kind()
 }
 
 func verifAdmitsTop(x Value, p verifMI) (bool, bool) {
@@ -95,14 +95,55 @@ func verifHarnessStructOrder() {
 	nops := verifParam("OPS", 2)
 	rt := &verifRuntime{}
 	labels := []Feature{MakeStringLabel(rt, "a"), MakeStringLabel(rt, "b")}
+	if verifParam("LABELS", 2) == 3 || verifParam("MODE", 0) != 0 {
+		labels = append(labels, MakeStringLabel(rt, "c"))
+	}
 	var ds [2][]verifDecl
+	mode := verifParam("MODE", 0)
+	leaf := func(label int) verifDecl { // a non-reference value
+		d := verifDecl{label: label, kind: verifChoice(3)}
+		switch d.kind {
+		case 0:
+			d.expr = verifSmallInt("n")
+		case 1:
+			ops := []Op{LessThanOp, GreaterEqualOp}
+			d.expr = &BoundValue{Op: ops[verifChoice(len(ops))], Value: verifSmallInt("n")}
+		default:
+			d.expr = &BasicType{K: IntKind}
+		}
+		return d
+	}
+	ref := func(label, to int) verifDecl {
+		return verifDecl{label: label, kind: 3, ref: to, expr: &FieldReference{Label: labels[to]}}
+	}
+	switch mode {
+	case 1:
+		// two routes into a: each literal is {a: t, t: V} with t one of b, c and
+		// V a leaf or a reference to the remaining label declared as a leaf
+		for i := range ds {
+			t := 1 + verifChoice(2)
+			ds[i] = []verifDecl{ref(0, t), leaf(t)}
+			if verifChoice(2) == 1 {
+				// the target itself refers on: t: u, u: V
+				u := 3 - t
+				ds[i] = []verifDecl{ref(0, t), ref(t, u), leaf(u)}
+			}
+		}
+	case 2:
+		// a chain with a second constraint at its end: {c: V1, a: c, b: a, b: V3} & {l: V2}
+		ds[0] = []verifDecl{leaf(2), ref(0, 2), ref(1, 0), leaf(1)}
+		ds[1] = []verifDecl{leaf(verifChoice(3))}
+	}
 	for i := range ds {
+		if mode != 0 {
+			break
+		}
 		md := maxDecls
 		if i == 1 {
 			md = verifParam("DECLS1", maxDecls)
 		}
 		n := 1 + verifChoice(md)
-		declared := [2]bool{}
+		declared := [3]bool{}
 		for j := 0; j < n; j++ {
 			d := verifGenDecl(labels, nops)
 			declared[d.label] = true
@@ -124,12 +165,14 @@ func verifHarnessStructOrder() {
 	verifAssume(verifMILe(verifMIConst(0), p))
 	verifAssume(verifMILt(p, verifMIConst(verifUniverse)))
 	for _, f := range labels {
-		s1, x1 := verifFieldState(v1, f)
+		s1, x1, k1 := verifFieldState(v1, f)
 		for k, w := range []*Vertex{v2, v3} {
-			s2, x2 := verifFieldState(w, f)
+			s2, x2, k2 := verifFieldState(w, f)
 			name := [2]string{"swapped-and-reversed", "merged-into-one-literal"}[k]
 			verifAssert(s1 == s2, "A01.1-same-field-presence-and-error-status-"+name)
 			if s1 == 1 && s2 == 1 {
+				// same kind: e.g. the type int is not lost in one of the orders
+				verifAssert(k1 == k2, "A01.1-same-kind-"+name)
 				a1, ok1 := verifAdmitsTop(x1, p)
 				a2, ok2 := verifAdmitsTop(x2, p)
 				verifAssert(ok1 && ok2, "A01.0-field-value-is-scalar-constraint")
